@@ -251,12 +251,17 @@ def suite_fault(pid, tier, seed):
         ml = M.get(h)
         if ml is None:
             diffs.append(f"K5 fail-at-k: model has no run `{h}`"); continue
-        d = run.first_diff(filt(rl, {"ret", "count"}), filt(ml, {"ret", "count"}))
+        fparts = spec.get("fault_corr", {"ret", "count"})
+        d = run.first_diff(filt(rl, fparts), filt(ml, fparts))
         if d:
             diffs.append(f"K5 fail-at-k correspondence differs in `{h}`: impl `{d[1]}` vs model `{d[2]}`")
+        fcall = next((l[8:] for l in rl if l.startswith("T FAULT ")), "")
         for tag, msg in oracle.fault_oracle(bycase[name], rl, h):
             if tag in spec["tags"]:
-                failures.append(mk_failure("fault", "fault:" + h.split("fault=")[1], bycase[name], h[5:], tag, msg))
+                f = mk_failure("fault", "fault:" + h.split("fault=")[1], bycase[name], h[5:], tag, msg)
+                f["fault_call"] = fcall
+                f["fault_op"] = next((l.split(" ", 2)[2].split(" -> ")[0] for l in rl if l.startswith("R ") and " -> err:" in l), "")
+                failures.append(f)
         distinct.add("fault:" + hashlib.sha1("\n".join(l for l in rl if l.startswith("R ")).encode()).hexdigest()[:16])
     for h in M:
         if h not in R:
@@ -374,6 +379,20 @@ def known_class(name):
         KNOWN_CLASSES[name] = f
         return f
     return deco
+
+
+@known_class("wal_fault_then_reclaim")
+def _f4(f):
+    """F4: the injected error hit the WAL append or WAL sync of an operation (its record stays in the
+    writer's buffer or in the file and becomes durable later) and the blob it names was reclaimed
+    afterwards: a later read or open reports the blob missing."""
+    fc = f.get("fault_call", "")
+    is_wal = fc.startswith(("append ", "sync ")) and fc.split()[1].endswith("_index.wal")
+    sym = ("BlobDataMissing" in f["message"]) or ("IntegrityCheckFailed" in f["message"]) or ("missing=[" in f["message"] and "missing=[]" not in f["message"])
+    fop = f.get("fault_op", "").split()
+    is_put = len(fop) >= 2 and fop[0] == "put"
+    same_key = is_put and (f" {fop[1]}`" in f["message"] or f"get {fop[1]} " in f["message"] or "open" in f["message"])
+    return f["suite"] == "fault" and is_wal and sym and is_put and same_key
 
 
 # ------------------------------------------------------------------------------- replay
